@@ -358,11 +358,15 @@ theorem openOneT_honest (ro : TRO F D) (tp : TParams F D) (point : Point F) (coe
     cases tp.pp.checkWf <;> simp
   exact ⟨t, r, idx, ab, ht, hten, hπ, hidx, htr, hu⟩
 
-/-- **Lock-step of one opening.**  For a polynomial in the domain (linear row encoder): if `open`
-answers on a sponge, `check` on the same prior history accepts the claimed value and ends with
-EXACTLY the prover's sponge. -/
+/-- **Lock-step of one opening.**  For a polynomial in the domain (linear row encoder) and a point
+with the number of coordinates the matrix width asks for (`PointFits`: automatic for a univariate
+point and for a power-of-two width; needed since fix D23 — `open` does not look at the vector `a` of
+`tensor`, `check` refuses when its length is not `n_cols`): if `open` answers on a sponge, `check` on
+the same prior history accepts the claimed value and ends with EXACTLY the prover's sponge. -/
 theorem oneT_lockstep (ro : TRO F D) (tp : TParams F D) (point : Point F) (coeffs : List F)
-    (E : List F → List F) (k : Nat) (h : Encodes tp.pp coeffs E k) (s : TLog F D) (π : Proof F D)
+    (E : List F → List F) (k : Nat) (h : Encodes tp.pp coeffs E k)
+    (hfit : PointFits point (coeffMat tp.pp.dims coeffs).m (coeffMat tp.pp.dims coeffs).n)
+    (s : TLog F D) (π : Proof F D)
     (s' : TLog F D)
     (ho : openOneT ro tp point (commitC tp.pp coeffs E k) (commitSt tp.pp coeffs E k) s = .ok (π, s')) :
     checkOneT ro tp point (commitC tp.pp coeffs E k) (claimed tp.pp point coeffs) π s
@@ -371,7 +375,15 @@ theorem oneT_lockstep (ro : TRO F D) (tp : TParams F D) (point : Point F) (coeff
   have hcl : claimed tp.pp point coeffs
       = dot (vecMat ab.2 (coeffMat tp.pp.dims coeffs).rows (coeffMat tp.pp.dims coeffs).m) ab.1 := by
     simp [claimed, hten]
-  have hck := checkOne_honest tp.pp point coeffs E k h ab.1 ab.2 ⟨r, idx⟩ hten hidx
+  have hbl : ab.2.length = (coeffMat tp.pp.dims coeffs).n := by
+    obtain ⟨_, _, _, _, hop, _⟩ := openOneT_spec ro tp point _ _ s π s' ho
+    obtain ⟨_, ab', hten', _, hv, _, _⟩ := openOne_parts _ _ _ _ _ _ hop
+    simp only [commitC, commitSt] at hten' hv
+    rw [hten] at hten'
+    cases hten'
+    exact (rowMul_ok _ _ _ hv).1
+  have hck := checkOne_honest tp.pp point coeffs E k h ab.1 ab.2 ⟨r, idx⟩ hten
+    (hfit ab.1 ab.2 hten) hbl hidx
   rw [checkOneT_ok_iff]
   refine ⟨t, r, idx, ht, ?_, ?_⟩
   · rw [hu]
@@ -382,7 +394,8 @@ theorem oneT_lockstep (ro : TRO F D) (tp : TParams F D) (point : Point F) (coeff
 /-- **The honest proof under other well-formedness coefficients, exact condition.**  The proof
 made with coefficients `r` (well-formedness vector `r·M`), checked with the same positions but
 coefficients `r'`: accepted iff `r'` and `r` agree on every opened column of the encoded matrix,
-`(r' − r)·M_ext[:, q] = 0` (nothing to test when the flag is off), and the value is the claimed one. -/
+`(r' − r)·M_ext[:, q] = 0` (nothing to test when the flag is off), the value is the claimed one, and
+(fix D23) the vectors of `tensor` have the lengths of the matrix. -/
 theorem honest_other_coefficients_iff (pp : Params F D) (point : Point F) (coeffs : List F)
     (E : List F → List F) (k : Nat) (h : Encodes pp coeffs E k) (a b r r' : List F) (idx : List Nat)
     (value : F)
@@ -390,6 +403,7 @@ theorem honest_other_coefficients_iff (pp : Params F D) (point : Point F) (coeff
     (hi : ∀ i ∈ idx, i < k) :
     checkOne pp point (commitC pp coeffs E k) value (honestProof pp coeffs E k b ⟨r, idx⟩) ⟨r', idx⟩
         = .ok true ↔
+      a.length = (coeffMat pp.dims coeffs).m ∧ b.length = (coeffMat pp.dims coeffs).n ∧
       (pp.checkWf = true → ∀ q ∈ idx, dot r' (colOf (extOf pp coeffs E k).rows q)
         = dot r (colOf (extOf pp coeffs E k).rows q)) ∧
       dot (vecMat b (coeffMat pp.dims coeffs).rows (coeffMat pp.dims coeffs).m) a = value := by
@@ -403,16 +417,14 @@ theorem honest_other_coefficients_iff (pp : Params F D) (point : Point F) (coeff
       (by rw [h.lin.len _ (vecMat_length _ _ _)]; exact hq)
     rw [h1, ← col_inner_product h.lin r _ hrl q hq]
     rfl
-  obtain ⟨p1, p2, p3, w, b2, p4, p5, p6, p7, _⟩ :=
-    honest_preRelation pp point coeffs E k h a b ⟨r, idx⟩ ht hi
   rw [checkOne_ok_true_iff]
   unfold commitC
   constructor
-  · rintro ⟨a'', ⟨_, _, _, w', b', _, _, ht', _, hwf'⟩, hv⟩
+  · rintro ⟨a'', ⟨_, _, _, w', b', _, _, ht', hla, hlb, _, hwf'⟩, hv⟩
     simp only at ht'
     rw [ht] at ht'
     cases ht'
-    refine ⟨?_, hv⟩
+    refine ⟨hla, hlb, ?_, hv⟩
     intro hc q hq
     obtain ⟨wf, ww, h1, h2, h3⟩ := hwf' hc
     simp only [honestProof, hc, if_true, Option.some.injEq] at h1
@@ -426,8 +438,10 @@ theorem honest_other_coefficients_iff (pp : Params F D) (point : Point F) (coeff
     rw [hcolr q (hi q hq)] at hy
     cases hy
     exact hd
-  · rintro ⟨hr, hv⟩
-    refine ⟨a, ⟨p1, p2, p3, w, b2, p4, p5, p6, p7, ?_⟩, hv⟩
+  · rintro ⟨hla, hlb, hr, hv⟩
+    obtain ⟨p1, p2, p3, w, b2, p4, p5, p6, p6a, p6b, p7, _⟩ :=
+      honest_preRelation pp point coeffs E k h a b ⟨r, idx⟩ ht hla hlb hi
+    refine ⟨a, ⟨p1, p2, p3, w, b2, p4, p5, p6, p6a, p6b, p7, ?_⟩, hv⟩
     intro hc
     refine ⟨_, E (vecMat r (coeffMat pp.dims coeffs).rows (coeffMat pp.dims coeffs).m),
       by simp [honestProof, hc], h.enc _ (vecMat_length _ _ _), ?_⟩
@@ -468,15 +482,21 @@ theorem openOne_eq' (pp : Params F D) (point : Point F) (coeffs : List F) (E : L
   rfl
 
 /-- **In-domain requests are answered on a sponge**: for a polynomial in the domain, a point whose
-`tensor` fits the matrix and parameters for which `calculate_t` answers, `open` answers and `check`
+`tensor` fits the matrix (`ha`, `hb`: one entry of `a` per column, of `b` per row) and parameters for which `calculate_t` answers, `open` answers and `check`
 answers `Ok(true)` from the same history — neither refuses nor aborts. -/
 theorem in_domain_answered (ro : TRO F D) (tp : TParams F D) (point : Point F) (coeffs : List F)
     (E : List F → List F) (k : Nat) (h : Encodes tp.pp coeffs E k) (a b : List F) (t : Nat)
     (ht : tensor point (coeffMat tp.pp.dims coeffs).m (coeffMat tp.pp.dims coeffs).n = .ok (a, b))
+    (ha : a.length = (coeffMat tp.pp.dims coeffs).m)
     (hb : b.length = (coeffMat tp.pp.dims coeffs).n) (htk : tp.tOf k = .ok t) (s : TLog F D) :
     ∃ π s', openOneT ro tp point (commitC tp.pp coeffs E k) (commitSt tp.pp coeffs E k) s = .ok (π, s') ∧
       checkOneT ro tp point (commitC tp.pp coeffs E k) (claimed tp.pp point coeffs) π s
         = .ok (true, s') := by
+  have hfit : PointFits point (coeffMat tp.pp.dims coeffs).m (coeffMat tp.pp.dims coeffs).n := by
+    intro a' b' h'
+    rw [ht] at h'
+    cases h'
+    exact ha
   have hd : depth (leavesOf tp.pp (extOf tp.pp coeffs E k)) ≠ 0 :=
     depth_pos_of_two (by rw [leavesOf_length]; exact h.two)
   have hk : k ≠ 0 := by have := h.two; omega
@@ -502,16 +522,18 @@ theorem in_domain_answered (ro : TRO F D) (tp : TParams F D) (point : Point F) (
     simp only [commitC, commitSt] at hwf ⊢
     have hm : (extOf tp.pp coeffs E k).m = k := rfl
     simp only [hd, ↓reduceIte, ht, hwf, hm, htk, Mat.rowMul, hb, hgi, hop]
-  exact ⟨_, s5, ho, oneT_lockstep ro tp point coeffs E k h s _ s5 ho⟩
+  exact ⟨_, s5, ho, oneT_lockstep ro tp point coeffs E k h hfit s _ s5 ho⟩
 
 /-- polynomial `i` of the lists is in the domain and the `i`-th commitment / state are `commit`'s -/
 def HonestTriple (pp : Params F D) (coeffs : List F) (c : Comm D) (st : State F D) : Prop :=
   ∃ E k, Encodes pp coeffs E k ∧ c = commitC pp coeffs E k ∧ st = commitSt pp coeffs E k
 
-/-- **Lock-step of `open` / `check`** over a list of (polynomial, commitment, state) triples. -/
+/-- **Lock-step of `open` / `check`** over a list of (polynomial, commitment, state) triples, at a
+point that fits the width of every matrix (`PointFits`, see `oneT_lockstep`). -/
 theorem allT_lockstep (ro : TRO F D) (tp : TParams F D) (point : Point F)
     (ts : List (List F × Comm D × State F D))
-    (hh : ∀ t ∈ ts, HonestTriple tp.pp t.1 t.2.1 t.2.2) :
+    (hh : ∀ t ∈ ts, HonestTriple tp.pp t.1 t.2.1 t.2.2)
+    (hfit : ∀ t ∈ ts, PointFits point (coeffMat tp.pp.dims t.1).m (coeffMat tp.pp.dims t.1).n) :
     ∀ (s : TLog F D) (πs : List (Proof F D)) (s' : TLog F D),
       openAllT ro tp point (ts.map (·.2.1)) (ts.map (·.2.2)) s = .ok (πs, s') →
       checkAllT ro tp point (ts.map (·.2.1)) (ts.map fun t => claimed tp.pp point t.1) πs s
@@ -543,8 +565,9 @@ theorem allT_lockstep (ro : TRO F D) (tp : TParams F D) (point : Point F)
         simp only at hc hst
         subst hc hst
         simp only [List.map_cons, checkAllT,
-          oneT_lockstep ro tp point coeffs E k hE s π s1 ho]
-        exact ih (fun t' ht' => hh t' (List.mem_cons_of_mem _ ht')) s1 πs' s2 hr
+          oneT_lockstep ro tp point coeffs E k hE (hfit (coeffs, _, _) List.mem_cons_self) s π s1 ho]
+        exact ih (fun t' ht' => hh t' (List.mem_cons_of_mem _ ht'))
+          (fun t' ht' => hfit t' (List.mem_cons_of_mem _ ht')) s1 πs' s2 hr
 
 /-! ### what the verifier's log depends on -/
 
